@@ -1,10 +1,8 @@
 package netgen
 
 import (
-	"bytes"
 	"encoding/binary"
 	"fmt"
-	"net/netip"
 
 	"github.com/gopacket/gopacket"
 
@@ -225,6 +223,10 @@ func FirstEgress(d *rtgen.Desc) uint16 {
 	return h.ConsIngress
 }
 
+// ExpiryMarginSec: paths with a hop field expiring sooner than this after the start of the
+// run are not used (neither as valid nor as expired).
+const ExpiryMarginSec = 900
+
 // ExpiryMargin returns the smallest distance in seconds between now and the
 // expiry of any hop (negative: some hop is expired by that much).
 func (p *Path) ExpiryMargin(nowSec int64) (minValid float64, expired bool, borderline bool) {
@@ -233,7 +235,9 @@ func (p *Path) ExpiryMargin(nowSec int64) (minValid float64, expired bool, borde
 		for _, h := range sl.Hops {
 			exp := float64(sl.TS) + float64(int(h.Hop.ExpTime)+1)*337.5
 			d := exp - float64(nowSec)
-			if d < float64(rtgen.MarginSec) && d > -float64(rtgen.MarginSec) {
+			// nowSec is sampled when the runner starts; the routers read the clock when a packet is
+			// walked (seconds to minutes later on a loaded machine): keep well away from the boundary
+			if d < ExpiryMarginSec && d > -float64(rtgen.MarginSec) {
 				borderline = true
 			}
 			if d < 0 {
@@ -390,8 +394,3 @@ func Tamper(d *rtgen.Desc, field string, idx, bit int) uint64 {
 	panic("netgen: unknown field " + field)
 }
 
-// SameBytes reports whether a and b are equal.
-func SameBytes(a, b []byte) bool { return bytes.Equal(a, b) }
-
-// hostOf is a helper for tests of address families.
-func hostOf(a netip.Addr) rtgen.Host { return rtgen.HostIP(a) }
